@@ -15,8 +15,8 @@ PROP = {'id': 'C13',
                  'proof of the callback (result is a set of configured names), its selection by flags is not decided',
                  'ResultsAggregator.clear_results_for_resubmission (result pruning through the csv module): assumed boundary contract of _reset_results '
                  '(exactly the rows of the set are removed)',
-                 'replacing submission groups from a file (--submission-groups-file): the new group objects are unconstrained in the proof '
-                 '(SubmissionGroup(**mapping))'],
+                 'resubmit-jobs --submission-groups-file: the replaced groups are unconstrained objects in the proof and the command does not re-validate '
+                 'them; the callback contract is restricted to the path without that option'],
  'explanation': "_update_with_blocking_jobs: the set only grows, ends closed under 'has a blocker in the set' and sound (every added job has a blocker in the "
                 "set), the returned map is exactly blockers-restricted-to-rerun-jobs, and JADE's own iteration-bound assertion cannot fail (cardinality "
                 'argument). prepare_for_resubmission: exactly the selected jobs are reset to NOT_SUBMITTED with those blockers, every other job keeps state '
